@@ -106,6 +106,11 @@ Upper(t) ==     \* i;ascii-casemap folding of the text alphabet used by the case
       \* same text with its ASCII letters in upper case ("CAFé ZüRICH"): i;ascii-casemap folds
       \* only the ASCII letters
       [] t = "NONASCII" -> "NONASCII-UP"
+      \* "ESCAPED": a text with characters that are backslash-escaped in the stored form (comma,
+      \* semicolon, line break); "FOLDED": a text longer than one 75-octet content line.  The
+      \* match is on the value, never on its serialisation.
+      [] t = "ESCAPED" -> "ESCAPED-UP"
+      [] t = "FOLDED" -> "FOLDED-UP"
       [] OTHER -> t
 
 \* substring relation on the (folded or raw) alphabet
